@@ -47,6 +47,8 @@ SMILES = [
     "C[C@H](O)F", "C[C@@H](N)C(=O)O", "F/C=C/Cl", "F/C=C\\Cl", "C[C@H]1CC[C@@H](C)CC1", "CC(=O)N", "c1ccccc1", "C/C=C/C", "OC[C@H](O)[C@@H](O)C=O",
     "N[C@@H](CS)C(=O)O", "C1CC1", "CC#N", "C[S@](=O)CC", "ClC(Br)=C(F)I", "C[C@H](Cl)[C@@H](Br)C", "c1ccncc1", "C=CC=C", "CC(C)(C)O", "O=C=O", "C[N+](C)(C)C",
     "C1=CCCCC1", "CN=C", "FC(F)(F)C(Cl)Br", "C[C@]12CC[C@H]1C2", "OC(=O)/C=C/C(=O)O", "CSC", "CP(C)C", "C[Si](C)(C)C", "NC(N)=O", "c1ccc2ccccc2c1",
+    # strained small rings (a ring atom is a substituent of both ends of the double bond; exocyclic angles of ~150 degrees)
+    "C1=CC1", "CC1=CC1", "CC1(C)C=C1", "C[C@]1(CC)C=C1C", "O=C1C=C1", "C1=CCC1", "C=C1CC1", "CC1=C(C)C1", "C1C2C1C2", "CC1=NC1C", "C12C3C4C1C5C2C3C45", "C1=CC2CC2C1", "FC1=CC1Cl",
 ]
 DATA = ["tests/unit/data/water.xyz", "tests/unit/data/caffeine.xyz", "tests/unit/data/PCl5.xyz", "tests/unit/data/fluoro_chloro_bromomethane_r.xyz", "tests/unit/data/fluoro_chloro_bromomethane_s.xyz", "tests/unit/data/(E)-(4S)-3,4-Dichlor-2-pentene.xyz", "tests/unit/data/(Z)-(4R)-3,4-Dichlor-2-pentene.xyz", "tests/unit/data/methylamine_phosgenation_trans_r.xyz", "tests/unit/data/methylamine_phosgenation_trans_p.xyz", "tests/unit/data/methylamine_phosgenation_trans_ts.xyz", "examples/react.xyz", "examples/prod.xyz", "examples/TS_cis.xyz", "examples/TS_trans.xyz"]
 TRIPLES = [("tests/unit/data/fluoro_chloro_bromomethane_r.xyz", "tests/unit/data/fluoro_chloro_bromomethane_s.xyz", "tests/unit/data/fluoro_chloro_bromomethane_ts.xyz"), ("tests/unit/data/methylamine_phosgenation_trans_r.xyz", "tests/unit/data/methylamine_phosgenation_trans_p.xyz", "tests/unit/data/methylamine_phosgenation_trans_ts.xyz"), ("examples/react.xyz", "examples/prod.xyz", "examples/TS_cis.xyz"), ("examples/react.xyz", "examples/prod.xyz", "examples/TS_trans.xyz")]
@@ -83,7 +85,14 @@ def _make(case):
         from rdkit import Chem
         from rdkit.Chem import AllChem
 
-        smi = SMILES[case["idx"] % len(SMILES)]
+        if case["idx"] % 4 == 3:  # random molecule
+            from .. import molgen
+
+            smi = molgen.random_smiles(random.Random(case["gseed"] + 17), n_heavy=(4, 12), p_triple=0.0, bredt=True)
+            if smi is None:
+                return None
+        else:
+            smi = SMILES[(case["idx"] - case["idx"] // 4) % len(SMILES)]
         m = Chem.AddHs(Chem.MolFromSmiles(smi))
         if AllChem.EmbedMolecule(m, randomSeed=case["gseed"] % 100000) != 0:
             return None
